@@ -56,6 +56,29 @@ def special(rng, w):
     return w
 
 
+def run_located(ctx, w, cfg, rng):
+    """the location options: the same push started from another directory with -d <tree> (absolute or relative), and
+    with the patches in a differently named directory given by -p"""
+    import os
+    d = l3gen.materialize(w)
+    args = list(l3gen.cfg_args(cfg))
+    variant = rng.choice(["-d abs", "-d rel", "-p other", "-d + -p"])
+    cwd = d
+    if variant in ("-d abs", "-d + -p"):
+        cwd = os.path.dirname(d)
+        args = ["-d", d] + args
+    elif variant == "-d rel":
+        cwd = os.path.dirname(d)
+        args = ["--directory", os.path.basename(d)] + args
+    if variant in ("-p other", "-d + -p"):
+        os.rename(os.path.join(d, "patches"), os.path.join(d, "qpatches"))
+        args = ["-p", "qpatches"] + args
+    rc, out = ws.run_push(ctx.binary, cwd, args, timeout=30)
+    snap = ws.snapshot(d, skip=("patches", "qpatches"))
+    ws.cleanup(d)
+    return variant, "EXIT %s | %s" % (rc, l3gen.canon_snapshot(snap)), out
+
+
 def run(ctx):
     rng = ctx.rng
     thorough = ctx.tier == "thorough"
@@ -86,6 +109,18 @@ def run(ctx):
                                    "cfg": l3common.cfg_json(cfg), "args": l3gen.cfg_args(c2),
                                    "only_with_q": [x[:200] for x in a if x not in b][:5], "only_with_options": [x[:200] for x in b if x not in a][:5],
                                    "output_tail": out[-600:].decode("latin-1")})
+    # location options (-d / -p): the model works on the tree itself, the binary must not care where it is started
+    nb = 0
+    for (w, cfg), base in list(zip(cases, reals))[: (200 if thorough else 40)]:
+        variant, r2, out = run_located(ctx, w, cfg, rng)
+        hist["location " + variant] += 1
+        if r2 != base:
+            nb += 1
+            if nb <= 2:
+                a, b = base.split(" | "), r2.split(" | ")
+                ctx.violation({"kind": "location-option-changes-result", "variant": variant, "workspace": l3common.ws_json(w), "cfg": l3common.cfg_json(cfg),
+                               "only_plain": [x[:200] for x in a if x not in b][:5], "only_located": [x[:200] for x in b if x not in a][:5],
+                               "output_tail": out[-400:].decode("latin-1")})
     l3common.compare(ctx, cases, "baseline (-q) vs model", real_results=reals)
     l3common.finish(ctx, "random workspaces (45%% failing) plus zero-length tree files, zero-length and header-only patch files, truncate-"
                          "then-fill; each pushed with -q and with %d random combinations of verbosity / --color / --stats / --mmap / -A multiapply; "
